@@ -63,7 +63,8 @@ def incOrder (p0 p1 : Nat) : Nat × Nat := if p0 > p1 then (p1, p0) else (p0, p1
 
 /-- `try_get_amount_delta_a` -/
 def tryGetAmountDeltaA (p0 p1 liq : Nat) (roundUp : Bool) : R AmountDelta :=
-  let (lo, hi) := incOrder p0 p1
+  let lo := (incOrder p0 p1).1
+  let hi := (incOrder p0 p1).2
   let diff := hi - lo
   let prod := liq * diff
   -- checked_shift_word_left: fails iff the top word is non-zero
@@ -81,7 +82,8 @@ def tryGetAmountDeltaA (p0 p1 liq : Nat) (roundUp : Bool) : R AmountDelta :=
 
 /-- `try_get_amount_delta_b` -/
 def tryGetAmountDeltaB (p0 p1 liq : Nat) (roundUp : Bool) : R AmountDelta :=
-  let (lo, hi) := incOrder p0 p1
+  let lo := (incOrder p0 p1).1
+  let hi := (incOrder p0 p1).2
   let n0 := liq
   let n1 := hi - lo
   if n0 = 0 || n1 = 0 then .ok (.valid 0)
@@ -148,7 +150,8 @@ def addLiquidityDelta (liq : Nat) (delta : Int) : R Nat :=
 
 /-- `est_liquidity_for_token_a` -/
 def estLiquidityForTokenA (p0 p1 amountA : Nat) : R Nat :=
-  let (lo, hi) := incOrder p0 p1
+  let lo := (incOrder p0 p1).1
+  let hi := (incOrder p0 p1).2
   let diff := hi - lo
   if diff = 0 then .error .Panic
   else
@@ -159,7 +162,8 @@ def estLiquidityForTokenA (p0 p1 amountA : Nat) : R Nat :=
 
 /-- `est_liquidity_for_token_b` -/
 def estLiquidityForTokenB (p0 p1 amountB : Nat) : R Nat :=
-  let (lo, hi) := incOrder p0 p1
+  let lo := (incOrder p0 p1).1
+  let hi := (incOrder p0 p1).2
   let diff := hi - lo
   if diff = 0 then .error .Panic
   else .ok ((amountB * TWO64) / diff)
